@@ -6,4 +6,5 @@ Set Extraction KeepSingleton.
 Extraction "model.ml" extraction_prelude
   PoolM.code_cfg PoolM.init PoolM.step PoolM.run PoolM.final PoolM.candidate_labels PoolM.enabled_labels
   PoolM.inv_all PoolM.inv_failures
-  PoolM.once_per_index PoolM.published PoolM.results_indexed PoolM.inner_measure PoolM.outer_measure.
+  PoolM.once_per_index PoolM.published PoolM.results_indexed PoolM.inner_measure PoolM.outer_measure
+  PoolM.is_release PoolM.is_acquire PoolMon.check.
